@@ -222,6 +222,8 @@ def streams(tier, rng):
             cases.append((1370, a))
             if big and n <= lim and large == 1:
                 cases.append((1374, a + [[]]) if crc == 0 else (1371, a))
+            if big and n <= lim and large == 0 and crc == 1:
+                cases.append((1371, a))          # 8190 requests packed (about 30 s in the model)
         a = _rand_pdu(rng, 300, crc=crc, large=large)
         cases.append((1371, a)); cases.append((1374, a + [[]]))
     yield "exh_nak_segment_counts", "exact", cases
@@ -243,7 +245,7 @@ def streams(tier, rng):
         for n in list(range(101, 301)) + list(range(304, 1101, 8)):
             a = _rand_pdu(rng, n)
             cases.append((1374, a + [[]]) if n % 64 == 0 or n <= 300 and n % 8 == 0 else (1371, a))
-    yield "exh_sizes_nak_segment_requests", "exact", cases
+    yield "sizes_nak_segment_requests", "exact", cases
     # 3. offsets at and beyond the 32/64-bit range in every position
     cases = []
     vals = [0, 1, 2 ** 31 - 1, 2 ** 31, 2 ** 32 - 1, 2 ** 32, 2 ** 32 + 1, 2 ** 63, 2 ** 64 - 1, 2 ** 64, 2 ** 65, -1, -2 ** 31]
